@@ -1,128 +1,393 @@
-//! Glue harnesses attached to rodbus/src/server/task.rs (engine `small`: MAX_ADU_LENGTH = 13)
+//! Session glue: the REAL `SessionTask::handle_frame` (parse -> authorize -> unit lookup -> handler -> reply -> write)
+//! executed whole over the in-memory transport. Engine `small`: the crate is compiled with
+//! `--cfg verif_small_frames` (MAX_ADU_LENGTH = 13) because the coroutine lowering of `handle_frame` with
+//! 253/260-byte arrays exceeds 24 GB even for a concrete one-byte frame. Every harness fixes the function code
+//! (a symbolic function code makes symex explore all eight parse/reply arms).
 #![allow(unused)]
 use super::*;
 use crate::common::frame::TxId;
+use crate::types::{AddressRange, Indexed};
 use crate::verif_support::*;
+use std::sync::atomic::{AtomicU32, AtomicU8, Ordering::Relaxed};
+use std::sync::Mutex;
 
-struct H {
-    calls: u32,
-}
-impl RequestHandler for H {
-    fn write_single_register(&mut self, v: crate::types::Indexed<u16>) -> Result<(), ExceptionCode> {
-        self.calls += 1;
-        Ok(())
-    }
-}
+type Shared = Arc<Mutex<Box<VH>>>;
 
-fn mk_session(handler: std::sync::Arc<std::sync::Mutex<Box<H>>>, rx: tokio::sync::mpsc::Receiver<ServerCommand>) -> SessionTask<H> {
-    let map = ServerHandlerMap::single(UnitId::new(1), handler);
-    SessionTask::new(map, AuthorizationType::None, FrameWriter::tcp(), FramedReader::tcp(), rx, DecodeLevel::nothing())
-}
-
-//@ props: C17
-//@ timeout: 600
-#[kani::proof]
-#[kani::unwind(12)]
-fn zz_h1_handle_concrete() {
-    let handler = H { calls: 0 }.wrap();
+fn session(map: ServerHandlerMap<VH>, auth: AuthorizationType, rtu: bool, level: DecodeLevel) -> (SessionTask<VH>, tokio::sync::mpsc::Sender<ServerCommand>) {
     let (ctx, rx) = tokio::sync::mpsc::channel(1);
-    let mut session = mk_session(handler.clone(), rx);
-    let mut io = PhysLayer::new_verif(VerifIo::new());
-    let mut frame = Frame::new(FrameHeader::new_tcp_header(UnitId::new(1), TxId::new(5)));
-    frame.set(&[0x55]);
-    let res = block_on(session.handle_frame(&mut io, frame));
-    assert!(res.is_ok());
-    let v = io.verif();
-    assert!(v.writes == 1);
-    assert!(v.out_len == 9);
-    kani::cover!(true, "end reached");
-    std::mem::forget(io);
-    std::mem::forget(session);
-    std::mem::forget(ctx);
-    std::mem::forget(handler);
+    let (w, r) = if rtu { (FrameWriter::rtu(), FramedReader::rtu_request()) } else { (FrameWriter::tcp(), FramedReader::tcp()) };
+    (SessionTask::new(map, auth, w, r, rx, level), ctx)
 }
 
-//@ props: C17
-//@ timeout: 600
-#[kani::proof]
-#[kani::unwind(12)]
-fn zz_e3_reply_err() {
-    let handler = H { calls: 0 }.wrap();
-    let (ctx, rx) = tokio::sync::mpsc::channel(1);
-    let mut session = mk_session(handler.clone(), rx);
-    let mut io = PhysLayer::new_verif(VerifIo::new());
-    let fc: u8 = kani::any();
-    let tx: u16 = kani::any();
-    let hdr = FrameHeader::new_tcp_header(UnitId::new(3), TxId::new(tx));
-    let res = block_on(session.reply_with_error_generic(&mut io, hdr, FunctionField::unknown(fc), ExceptionCode::IllegalFunction));
-    assert!(res.is_ok());
-    assert!(io.verif().out_len == 9);
-    kani::cover!(true, "end reached");
-    std::mem::forget(io);
-    std::mem::forget(session);
-    std::mem::forget(ctx);
-    std::mem::forget(handler);
-}
-
-//@ props: C17
-//@ timeout: 1500
-#[kani::proof]
-#[kani::unwind(12)]
-fn zz_g_unknown_sym() {
-    let handler = H { calls: 0 }.wrap();
-    let (ctx, rx) = tokio::sync::mpsc::channel(1);
-    let mut session = mk_session(handler.clone(), rx);
-    let mut io = PhysLayer::new_verif(VerifIo::new());
-    let unit: u8 = kani::any();
-    let tx: u16 = kani::any();
-    let fc: u8 = kani::any();
-    kani::assume(FunctionCode::get(fc).is_none());
-    let mut frame = Frame::new(FrameHeader::new_tcp_header(UnitId::new(unit), TxId::new(tx)));
-    frame.set(&[fc]);
-    let res = block_on(session.handle_frame(&mut io, frame));
-    assert!(res.is_ok());
-    let v = io.verif();
-    assert!(v.writes == 1);
-    assert!(v.out_len == 9);
-    assert!(v.out[7] == fc | 0x80 && v.out[8] == 1);
-    kani::cover!(true, "end reached");
-    std::mem::forget(io);
-    std::mem::forget(session);
-    std::mem::forget(ctx);
-    std::mem::forget(handler);
-}
-
-//@ props: C17
-//@ timeout: 1500
-#[kani::proof]
-#[kani::unwind(12)]
-fn zz_g_wsr_sym() {
-    let handler = H { calls: 0 }.wrap();
-    let (ctx, rx) = tokio::sync::mpsc::channel(1);
-    let mut session = mk_session(handler.clone(), rx);
-    let mut io = PhysLayer::new_verif(VerifIo::new());
-    let unit: u8 = kani::any();
-    let tx: u16 = kani::any();
-    let body: [u8; 4] = kani::any();
-    let mut frame = Frame::new(FrameHeader::new_tcp_header(UnitId::new(unit), TxId::new(tx)));
-    frame.set(&[6, body[0], body[1], body[2], body[3]]);
-    let res = block_on(session.handle_frame(&mut io, frame));
-    assert!(res.is_ok());
-    let calls = handler.lock().unwrap().calls;
-    let v = io.verif();
-    if unit == 1 {
-        assert!(v.writes == 1);
-        assert!(v.out_len == 12);
-        assert!(calls == 1);
-        assert!(v.out[7] == 6 && v.out[8] == body[0] && v.out[11] == body[3]);
+fn frame_of(rtu: bool, unit: u8, tx: u16, pdu: &[u8]) -> Frame {
+    let header = if rtu {
+        FrameHeader::new_rtu_header(if unit == 0 { FrameDestination::Broadcast } else { FrameDestination::UnitId(UnitId::new(unit)) })
     } else {
-        assert!(v.writes == 0);
-        assert!(calls == 0);
+        FrameHeader::new_tcp_header(UnitId::new(unit), TxId::new(tx))
+    };
+    let mut f = Frame::new(header);
+    f.set(pdu);
+    f
+}
+
+/// (calls, writes, w_start, w_value, w_kind) of a handler
+fn log_of(h: &Shared) -> (u32, u32, u16, u16, u8) {
+    match h.lock() {
+        Ok(g) => (g.calls(), g.writes, g.w_start, g.w_value, g.write_kind),
+        Err(_) => (u32::MAX, 0, 0, 0, 0),
     }
-    kani::cover!(unit == 1, "mapped");
-    kani::cover!(unit != 1, "unmapped");
-    std::mem::forget(io);
-    std::mem::forget(session);
-    std::mem::forget(ctx);
-    std::mem::forget(handler);
+}
+
+const UNIT: u8 = 17;
+
+/// expected MBAP reply prefix check
+fn check_mbap(v: &VerifIo, tx: u16, unit: u8, pdu: &[u8]) {
+    assert!(v.writes == 1, "[C01] exactly one reply per request addressed to a configured unit");
+    assert!(v.out_len == 7 + pdu.len(), "[C01] reply length");
+    assert!(v.out[0] == (tx >> 8) as u8 && v.out[1] == tx as u8, "[C01] reply echoes the transaction id");
+    assert!(v.out[2] == 0 && v.out[3] == 0 && v.out[4] == 0 && v.out[5] == (pdu.len() + 1) as u8, "[C01] protocol id and length");
+    assert!(v.out[6] == unit, "[C01] reply echoes the unit id");
+    let mut i = 0;
+    while i < pdu.len() {
+        assert!(v.out[7 + i] == pdu[i], "[C01] reply PDU");
+        i += 1;
+    }
+}
+
+//@ props: C17 C01 C02 C20
+//@ peer: yes
+//@ timeout: 1500
+//@ fns: server::task::SessionTask::handle_frame (whole), server::request::Request::parse, Request::get_reply, server::handler::ServerHandlerMap::get, common::frame::FrameWriter::format_reply, common::phys::PhysLayer::write
+//@ bounds: MBAP, write single register (fc 6) with every index/value, EVERY unit id 0..=255 against a map holding unit 17, every transaction id, every handler result, all decode levels; MAX_ADU_LENGTH = 13 (hook H3)
+//@ stubs: transport = VerifIo; short frames (hook H3)
+/// a valid write addressed to the configured unit is executed once and echoed; addressed to any other unit it
+/// has no effect and NOTHING is written
+#[kani::proof]
+#[kani::unwind(14)]
+fn c17_glue_write_register_unit_filter() {
+    let t = Tables::any();
+    let h: Shared = VH::new(t, 0).wrap();
+    let level = any_decode_level();
+    let (mut s, ctx) = session(ServerHandlerMap::single(UnitId::new(UNIT), h.clone()), AuthorizationType::None, false, level);
+    let mut io = PhysLayer::new_verif(VerifIo::new());
+    let unit: u8 = kani::any();
+    let tx: u16 = kani::any();
+    let b: [u8; 4] = kani::any();
+    let res = block_on(s.handle_frame(&mut io, frame_of(false, unit, tx, &[6, b[0], b[1], b[2], b[3]])));
+    assert!(res.is_ok(), "[C07] the session continues");
+    let (calls, writes, w_start, w_value, w_kind) = log_of(&h);
+    let v = io.verif();
+    if unit == UNIT {
+        assert!(calls == 1 && writes == 1 && w_kind == 2, "[C02] the write handler is invoked exactly once");
+        assert!(w_start == be16(b[0], b[1]) && w_value == be16(b[2], b[3]), "[C02] with exactly the address and value sent");
+        match t.write_result {
+            Ok(()) => check_mbap(v, tx, unit, &[6, b[0], b[1], b[2], b[3]]),
+            Err(e) => check_mbap(v, tx, unit, &[0x86, u8::from(e)]),
+        }
+    } else {
+        assert!(calls == 0, "[C02] a request for another unit invokes no handler");
+        assert!(v.writes == 0 && v.out_len == 0, "[C17] the server stays silent for every unit id it was not configured with");
+    }
+    kani::cover!(unit == UNIT && t.write_result.is_ok(), "addressed and executed");
+    kani::cover!(unit == UNIT && t.write_result.is_err(), "addressed, handler raised");
+    kani::cover!(unit != UNIT, "other unit");
+    std::mem::forget((io, s, ctx, h));
+}
+
+//@ props: C17 C01 C02
+//@ peer: yes
+//@ timeout: 1500
+//@ fns: server::task::SessionTask::handle_frame, SessionTask::reply_with_error, server::request::Request::parse (error path)
+//@ bounds: MBAP, malformed write-single-coil requests (fc 5): every 4-byte body with an undefined coil value and every truncated body of 0..=3 bytes; every unit id against a map holding unit 17
+/// a malformed request addressed to the configured unit is answered with exception 03 and reaches no handler;
+/// addressed to an unconfigured unit it is not answered at all
+#[kani::proof]
+#[kani::unwind(14)]
+fn c17_glue_malformed_request() {
+    let h: Shared = VH::new(Tables::any(), 0).wrap();
+    let (mut s, ctx) = session(ServerHandlerMap::single(UnitId::new(UNIT), h.clone()), AuthorizationType::None, false, any_decode_level());
+    let mut io = PhysLayer::new_verif(VerifIo::new());
+    let unit: u8 = kani::any();
+    let tx: u16 = kani::any();
+    let b: [u8; 4] = kani::any();
+    let len: usize = kani::any();
+    kani::assume(len <= 4);
+    let v16 = be16(b[2], b[3]);
+    kani::assume(len < 4 || (v16 != 0xFF00 && v16 != 0x0000));
+    let pdu = [5, b[0], b[1], b[2], b[3]];
+    let res = block_on(s.handle_frame(&mut io, frame_of(false, unit, tx, &pdu[..1 + len])));
+    assert!(res.is_ok(), "[C07] the session continues after a malformed request");
+    let (calls, ..) = log_of(&h);
+    assert!(calls == 0, "[C02] a malformed request never reaches a handler");
+    let v = io.verif();
+    if unit == UNIT {
+        check_mbap(v, tx, unit, &[0x85, 0x03]);
+    } else {
+        assert!(v.writes == 0, "[C17] a malformed request for an unconfigured unit id is not answered");
+    }
+    kani::cover!(unit == UNIT && len == 4, "undefined coil value answered with exception 03");
+    kani::cover!(unit != UNIT && len < 4, "truncated request to another unit");
+    std::mem::forget((io, s, ctx, h));
+}
+
+fn unknown_function(fc: u8) {
+    let h: Shared = VH::new(Tables::any(), 0).wrap();
+    let (mut s, ctx) = session(ServerHandlerMap::single(UnitId::new(UNIT), h.clone()), AuthorizationType::None, false, any_decode_level());
+    let mut io = PhysLayer::new_verif(VerifIo::new());
+    let unit: u8 = kani::any();
+    let tx: u16 = kani::any();
+    let extra: [u8; 2] = kani::any();
+    let len: usize = kani::any();
+    kani::assume(len <= 2);
+    let pdu = [fc, extra[0], extra[1]];
+    let res = block_on(s.handle_frame(&mut io, frame_of(false, unit, tx, &pdu[..1 + len])));
+    assert!(res.is_ok(), "[C07] the session continues");
+    let (calls, ..) = log_of(&h);
+    assert!(calls == 0, "[C02] an unsupported function reaches no handler");
+    let v = io.verif();
+    if unit == UNIT {
+        check_mbap(v, tx, unit, &[fc | 0x80, 0x01]);
+    } else {
+        assert!(v.writes == 0, "[C17] an unsupported function addressed to an unconfigured unit id is not answered");
+    }
+    kani::cover!(unit == UNIT, "answered with exception 01");
+    kani::cover!(unit != UNIT, "other unit");
+    std::mem::forget((io, s, ctx, h));
+}
+
+//@ props: C17 C01 C02
+//@ peer: yes
+//@ timeout: 1500
+//@ fns: server::task::SessionTask::handle_frame, SessionTask::reply_with_error_generic, common::function::FunctionCode::get
+//@ bounds: MBAP, unsupported function codes 0x00, 0x07, 0x2B, 0x80 and 0xFF (representatives; the full table is c01_function_code_table) with 0..=2 trailing bytes, every unit id against a map holding unit 17
+#[kani::proof]
+#[kani::unwind(14)]
+fn c17_glue_unknown_function_q() {
+    let k: u8 = kani::any();
+    match k {
+        0 => unknown_function(0x00),
+        1 => unknown_function(0x07),
+        2 => unknown_function(0x2B),
+        3 => unknown_function(0x80),
+        _ => unknown_function(0xFF),
+    }
+}
+
+//@ props: C17 C01 C02
+//@ peer: yes
+//@ timeout: 1500
+//@ fns: server::task::SessionTask::handle_frame (empty body)
+//@ bounds: MBAP and RTU, empty PDU, every unit id
+#[kani::proof]
+#[kani::unwind(14)]
+fn c17_glue_empty_frame() {
+    let h: Shared = VH::new(Tables::any(), 0).wrap();
+    let rtu: bool = kani::any();
+    let (mut s, ctx) = session(ServerHandlerMap::single(UnitId::new(UNIT), h.clone()), AuthorizationType::None, rtu, any_decode_level());
+    let mut io = PhysLayer::new_verif(VerifIo::new());
+    let res = block_on(s.handle_frame(&mut io, frame_of(rtu, kani::any(), kani::any(), &[])));
+    assert!(res.is_ok(), "[C07] the session continues");
+    let (calls, ..) = log_of(&h);
+    assert!(calls == 0 && io.verif().writes == 0, "[C01] a frame with an empty body is not answered and reaches no handler");
+    kani::cover!(rtu, "rtu");
+    kani::cover!(!rtu, "tcp");
+    std::mem::forget((io, s, ctx, h));
+}
+
+//@ props: C17 C02 C01
+//@ peer: yes
+//@ timeout: 2400
+//@ fns: server::task::SessionTask::handle_frame (broadcast arm), server::request::Request::into_broadcast_request, BroadcastRequest::execute, server::handler::ServerHandlerMap::iter_mut
+//@ bounds: RTU, write single register to address 0 (broadcast), map of two units (17 and 42) with independent symbolic handlers, every index/value and handler result
+/// a broadcast write is applied exactly once to EVERY configured unit and is never answered - not even when a
+/// handler raises an exception
+#[kani::proof]
+#[kani::unwind(14)]
+fn c17_glue_broadcast_write() {
+    let h1: Shared = VH::new(Tables::any(), 0).wrap();
+    let h2: Shared = VH::new(Tables::any(), 0).wrap();
+    let mut map = ServerHandlerMap::single(UnitId::new(UNIT), h1.clone());
+    map.add(UnitId::new(42), h2.clone());
+    let (mut s, ctx) = session(map, AuthorizationType::None, true, any_decode_level());
+    let mut io = PhysLayer::new_verif(VerifIo::new());
+    let b: [u8; 4] = kani::any();
+    let res = block_on(s.handle_frame(&mut io, frame_of(true, 0, 0, &[6, b[0], b[1], b[2], b[3]])));
+    assert!(res.is_ok(), "[C07] the session continues");
+    let (c1, w1, s1, v1, k1) = log_of(&h1);
+    let (c2, w2, s2, v2, k2) = log_of(&h2);
+    assert!(c1 == 1 && w1 == 1 && k1 == 2 && c2 == 1 && w2 == 1 && k2 == 2, "[C17] a broadcast write is applied exactly once to every configured unit");
+    assert!(s1 == be16(b[0], b[1]) && v1 == be16(b[2], b[3]) && s2 == s1 && v2 == v1, "[C02] with exactly the address and value sent");
+    assert!(io.verif().writes == 0 && io.verif().out_len == 0, "[C17] a broadcast is never answered, not even with an exception");
+    kani::cover!(true, "reached");
+    std::mem::forget((io, s, ctx, h1, h2));
+}
+
+//@ props: C17 C02
+//@ peer: yes
+//@ timeout: 2400
+//@ fns: server::task::SessionTask::handle_frame (broadcast arm, reads and errors), SessionTask::reply_with_error_generic (broadcast guard)
+//@ bounds: RTU broadcast: a read-holding-registers request (valid or malformed), and an unsupported function code; one configured unit
+/// reads addressed to unit 0 are ignored; malformed and unsupported broadcasts are not answered either
+#[kani::proof]
+#[kani::unwind(14)]
+fn c17_glue_broadcast_ignored() {
+    let h: Shared = VH::new(Tables::any(), 0).wrap();
+    let (mut s, ctx) = session(ServerHandlerMap::single(UnitId::new(UNIT), h.clone()), AuthorizationType::None, true, any_decode_level());
+    let mut io = PhysLayer::new_verif(VerifIo::new());
+    let b: [u8; 4] = kani::any();
+    let res = if kani::any() {
+        // read: valid or not (count may be 0 / too large / overflowing)
+        block_on(s.handle_frame(&mut io, frame_of(true, 0, 0, &[3, b[0], b[1], b[2], b[3]])))
+    } else {
+        block_on(s.handle_frame(&mut io, frame_of(true, 0, 0, &[0x2B, b[0]])))
+    };
+    assert!(res.is_ok(), "[C07] the session continues");
+    let (calls, ..) = log_of(&h);
+    assert!(calls == 0, "[C17] a read addressed to unit 0 is ignored");
+    assert!(io.verif().writes == 0, "[C17] nothing is ever transmitted in response to a broadcast");
+    kani::cover!(true, "reached");
+    std::mem::forget((io, s, ctx, h));
+}
+
+// ---------------------------------------------------------------------------------------------
+// C08: authorization placement
+
+static P_ALLOW: AtomicU8 = AtomicU8::new(0);
+static P_CALLS: AtomicU32 = AtomicU32::new(0);
+
+struct Policy;
+impl AuthorizationHandler for Policy {
+    fn write_single_register(&self, _u: UnitId, _idx: u16, _role: &str) -> Authorization {
+        P_CALLS.fetch_add(1, Relaxed);
+        if P_ALLOW.load(Relaxed) == 1 { Authorization::Allow } else { Authorization::Deny }
+    }
+    fn read_holding_registers(&self, _u: UnitId, _r: AddressRange, _role: &str) -> Authorization {
+        P_CALLS.fetch_add(1, Relaxed);
+        if P_ALLOW.load(Relaxed) == 1 { Authorization::Allow } else { Authorization::Deny }
+    }
+}
+
+//@ props: C08 C02 C01
+//@ peer: yes
+//@ timeout: 2400
+//@ fns: server::task::SessionTask::handle_frame (authorization block), AuthorizationType::is_authorized, SessionTask::reply_with_error
+//@ bounds: MBAP, write single register with every index/value, policy answer symbolic (allow / deny), configured and unconfigured unit ids, every handler result
+/// deny => no point handler is invoked and the client receives exception 01 for that function code;
+/// allow => exactly the behaviour without authorization
+#[kani::proof]
+#[kani::unwind(14)]
+fn c08_glue_deny_has_no_effect() {
+    let t = Tables::any();
+    let h: Shared = VH::new(t, 0).wrap();
+    let allow: bool = kani::any();
+    P_ALLOW.store(allow as u8, Relaxed);
+    let auth = AuthorizationType::Handler(Arc::new(Policy), String::from("role"));
+    let (mut s, ctx) = session(ServerHandlerMap::single(UnitId::new(UNIT), h.clone()), auth, false, any_decode_level());
+    let mut io = PhysLayer::new_verif(VerifIo::new());
+    let unit: u8 = kani::any();
+    let tx: u16 = kani::any();
+    let b: [u8; 4] = kani::any();
+    let res = block_on(s.handle_frame(&mut io, frame_of(false, unit, tx, &[6, b[0], b[1], b[2], b[3]])));
+    assert!(res.is_ok(), "[C07] the session continues");
+    assert!(P_CALLS.load(Relaxed) == 1, "[C08] every well-formed request is submitted to the authorization handler, once");
+    let (calls, writes, w_start, w_value, _) = log_of(&h);
+    let v = io.verif();
+    if !allow {
+        assert!(calls == 0, "[C08] a denied request invokes no point handler");
+        check_mbap(v, tx, unit, &[0x86, 0x01]);
+    } else if unit == UNIT {
+        assert!(calls == 1 && writes == 1 && w_start == be16(b[0], b[1]) && w_value == be16(b[2], b[3]), "[C08] an allowed request behaves as without authorization");
+        match t.write_result {
+            Ok(()) => check_mbap(v, tx, unit, &[6, b[0], b[1], b[2], b[3]]),
+            Err(e) => check_mbap(v, tx, unit, &[0x86, u8::from(e)]),
+        }
+    } else {
+        assert!(calls == 0 && v.writes == 0, "[C08] an allowed request for an unconfigured unit is silently dropped, as without authorization");
+    }
+    kani::cover!(!allow && unit == UNIT, "denied");
+    kani::cover!(allow && unit == UNIT, "allowed");
+    std::mem::forget((io, s, ctx, h));
+}
+
+//@ props: C08
+//@ peer: yes
+//@ timeout: 3000
+//@ fns: server::task::SessionTask::handle_frame called twice on the same session
+//@ bounds: MBAP, two consecutive write-single-register requests on one session: the first allowed, the second denied (and vice versa); same or different unit/index
+/// the decision is taken per request: an earlier allow never carries over to a later request
+#[kani::proof]
+#[kani::unwind(14)]
+fn c08_glue_decision_per_request() {
+    let h: Shared = VH::new(Tables::any(), 0).wrap();
+    let auth = AuthorizationType::Handler(Arc::new(Policy), String::from("role"));
+    let (mut s, ctx) = session(ServerHandlerMap::single(UnitId::new(UNIT), h.clone()), auth, false, DecodeLevel::nothing());
+    let mut io = PhysLayer::new_verif(VerifIo::new());
+    let first_allow: bool = kani::any();
+    let b: [u8; 4] = kani::any();
+    let same: bool = kani::any();
+    P_ALLOW.store(first_allow as u8, Relaxed);
+    let r1 = block_on(s.handle_frame(&mut io, frame_of(false, UNIT, 1, &[6, b[0], b[1], b[2], b[3]])));
+    let (calls1, ..) = log_of(&h);
+    P_ALLOW.store(!first_allow as u8, Relaxed);
+    let c: [u8; 4] = if same { b } else { kani::any() };
+    let r2 = block_on(s.handle_frame(&mut io, frame_of(false, UNIT, 2, &[6, c[0], c[1], c[2], c[3]])));
+    assert!(r1.is_ok() && r2.is_ok());
+    assert!(P_CALLS.load(Relaxed) == 2, "[C08] the authorization handler is consulted for every request");
+    let (calls2, ..) = log_of(&h);
+    assert!(calls1 == first_allow as u32, "[C08] first request follows its own decision");
+    assert!(calls2 - calls1 == (!first_allow) as u32, "[C08] an earlier allow (or deny) never carries over to a later request");
+    assert!(io.verif().writes == 2, "[C01] one reply per request, in order");
+    kani::cover!(first_allow && same, "allow then deny of the identical request");
+    std::mem::forget((io, s, ctx, h));
+}
+
+//@ props: C01 C02 C17 C20
+//@ peer: yes
+//@ timeout: 3000
+//@ fns: server::task::SessionTask::handle_frame, server::request::Request::get_reply (read arm), common::serialize::<RegisterWriter as Serialize>::serialize
+//@ bounds: MBAP, read holding registers with quantity 1..=2 (and every invalid quantity/range), every unit id against a map holding unit 17, symbolic point table incl. an exception address
+#[kani::proof]
+#[kani::unwind(14)]
+fn c01_glue_read_registers() {
+    let t = Tables::any();
+    let h: Shared = VH::new(t, 0).wrap();
+    let (mut s, ctx) = session(ServerHandlerMap::single(UnitId::new(UNIT), h.clone()), AuthorizationType::None, false, any_decode_level());
+    let mut io = PhysLayer::new_verif(VerifIo::new());
+    let unit: u8 = kani::any();
+    let tx: u16 = kani::any();
+    let b: [u8; 4] = kani::any();
+    let start = be16(b[0], b[1]);
+    let count = be16(b[2], b[3]);
+    kani::assume(count <= 2 || count > 125);
+    let res = block_on(s.handle_frame(&mut io, frame_of(false, unit, tx, &[3, b[0], b[1], b[2], b[3]])));
+    assert!(res.is_ok(), "[C07] the session continues");
+    let v = io.verif();
+    let reads = match h.lock() { Ok(g) => g.reads.get(), Err(_) => u32::MAX };
+    let valid = count >= 1 && count <= 125 && (start as u32 + count as u32) <= 65536;
+    if unit != UNIT {
+        // (unanswered malformed requests for other units are decided by c17_glue_malformed_request)
+        assert!(reads == 0, "[C02] another unit's request reads nothing");
+        assert!(!valid || v.writes == 0, "[C17] silent for other units");
+    } else if !valid {
+        assert!(reads == 0, "[C02] an invalid read queries nothing");
+        check_mbap(v, tx, unit, &[0x83, 0x03]);
+    } else {
+        let (n, ex) = ref_reads(&t, start, count);
+        assert!(reads == n, "[C02] reads query only addresses inside the requested range, once each");
+        match ex {
+            Some(e) => check_mbap(v, tx, unit, &[0x83, u8::from(e)]),
+            None => {
+                let r0 = t.hreg(start);
+                if count == 1 {
+                    check_mbap(v, tx, unit, &[3, 2, (r0 >> 8) as u8, r0 as u8]);
+                } else {
+                    let r1 = t.hreg(start + 1);
+                    check_mbap(v, tx, unit, &[3, 4, (r0 >> 8) as u8, r0 as u8, (r1 >> 8) as u8, r1 as u8]);
+                }
+            }
+        }
+    }
+    kani::cover!(unit == UNIT && valid && count == 2, "two registers returned");
+    kani::cover!(unit == UNIT && !valid, "invalid read answered with exception 03");
+    std::mem::forget((io, s, ctx, h));
 }
